@@ -15,6 +15,7 @@ pub open spec fn pinv<F>(d: Defs<F>, ops: Seq<Op<F>>, n: int, extra: WSet, dn: b
     &&& forall|w: WitnessId| #[trigger] extra(w) ==> d.dom().contains(w) && (cat(d, w) || d[w].idx >= n)
     &&& forall|w: WitnessId| #[trigger] d.dom().contains(w) && d[w].def is Mul ==>
             addmul_parts(ops[d[w].idx as int]) == Some((AluOpKind::Mul, d[w].def->Mul_a, d[w].def->Mul_b, w))
+            && no_definer_before(ops, d[w].idx as int, w)
     &&& forall|k: int, k0: int| 0 <= k0 < k < n && (#[trigger] addmul_parts(ops[k])).is_some() && #[trigger] definer(ops[k0], addmul_parts(ops[k]).unwrap().3)
             ==> ({ let b = addmul_parts(ops[k]).unwrap().2; cat(d, b) || (d.dom().contains(b) && d[b].idx >= k) })
     &&& (dn ==> forall|k0: int| 0 <= k0 < n && addmul_parts(ops[n]).is_some() && #[trigger] definer(ops[k0], addmul_parts(ops[n]).unwrap().3)
@@ -28,9 +29,12 @@ pub open spec fn dinv<F>(d: Defs<F>, ops: Seq<Op<F>>, n: int) -> bool {
     &&& forall|w: WitnessId, k: int| 0 <= k < n && #[trigger] definer(ops[k], w) ==> d.dom().contains(w) && (cat(d, w) || d[w].idx >= k)
     &&& forall|w: WitnessId| #[trigger] d.dom().contains(w) && d[w].def is Mul ==>
             addmul_parts(ops[d[w].idx as int]) == Some((AluOpKind::Mul, d[w].def->Mul_a, d[w].def->Mul_b, w))
+            && no_definer_before(ops, d[w].idx as int, w)
     &&& forall|k: int, k0: int| 0 <= k0 < k < n && (#[trigger] addmul_parts(ops[k])).is_some() && #[trigger] definer(ops[k0], addmul_parts(ops[k]).unwrap().3)
             ==> ({ let b = addmul_parts(ops[k]).unwrap().2; cat(d, b) || (d.dom().contains(b) && d[b].idx >= k) })
 }
+/// a Mul is only recorded as a fusable definition when its out slot had no definer before it
+pub open spec fn no_definer_before<F>(ops: Seq<Op<F>>, n: int, w: WitnessId) -> bool { forall|k0: int| 0 <= k0 < n ==> !definer(#[trigger] ops[k0], w) }
 pub open spec fn wnone() -> WSet { |w: WitnessId| false }
 pub open spec fn wadd(s: WSet, x: WitnessId) -> WSet { |w: WitnessId| s(w) || w == x }
 
@@ -43,7 +47,7 @@ pub proof fn lemma_open<F>(d: Defs<F>, ops: Seq<Op<F>>, n: int)
 pub proof fn lemma_ins<F>(d: Defs<F>, ops: Seq<Op<F>>, n: int, extra: WSet, dn: bool, x: WitnessId, def: OpDef<F>)
     requires
         pinv(d, ops, n, extra, dn), n < usize::MAX, !(def is Const),
-        def is Mul ==> addmul_parts(ops[n]) == Some((AluOpKind::Mul, def->Mul_a, def->Mul_b, x)),
+        def is Mul ==> addmul_parts(ops[n]) == Some((AluOpKind::Mul, def->Mul_a, def->Mul_b, x)) && no_definer_before(ops, n, x),
     ensures pinv(ins_uc(d, x, n as usize, def), ops, n, wadd(extra, x), dn)
 {
     let d2 = ins_uc(d, x, n as usize, def);
@@ -78,7 +82,7 @@ pub proof fn lemma_backwards<F>(d: Defs<F>, ops: Seq<Op<F>>, n: int, out: Witnes
         addmul_parts(ops[n]).is_some(), addmul_parts(ops[n]).unwrap().3 == out, addmul_parts(ops[n]).unwrap().2 == b,
     ensures
         ({ let bw = d.dom().contains(out) && d[out].idx < n;
-           pinv(if bw { ins_uc(d, b, n as usize, OpDef::Other) } else { d }, ops, n, wnone(), true) })
+           pinv(if bw { ins_uc(d, b, n as usize, OpDef::Other) } else { d }, ops, n, wnone(), true) && (!bw ==> no_definer_before(ops, n, out)) })
 {
     lemma_open(d, ops, n);
     let bw = d.dom().contains(out) && d[out].idx < n;
@@ -141,5 +145,138 @@ pub proof fn lemma_const<F>(d: Defs<F>, ops: Seq<Op<F>>, n: int, out: WitnessId,
         let b = addmul_parts(ops[k]).unwrap().2;
         if b != out { assert(cat(d2, b) == cat(d, b)); }
     }
+}
+} // verus!
+
+verus! {
+// ================================================================ what a fusion candidate must satisfy (C03)
+/// slot x occurs in a position that the RELATION of op reads or writes (hints have no relation; the product slot kept
+/// in a MulAdd's intermediate_out is not part of its relation, a HornerAcc's accumulator is)
+pub open spec fn rel_mentions<F>(op: Op<F>, x: WitnessId) -> bool {
+    match op {
+        Op::Const { out, .. } => out == x,
+        Op::Public { out, .. } => out == x,
+        Op::Alu { kind, a, b, c, out, intermediate_out } => a == x || b == x || c == Some(x) || out == x || (kind is HornerAcc && intermediate_out == Some(x)),
+        Op::Hint { .. } => false,
+        Op::NonPrimitiveOpWithExecutor { inputs, outputs, .. } => in_seq2(inputs@, x) || in_seq2(outputs@, x),
+    }
+}
+/// (add_idx, mul_idx) is a sound fusion of ops: a plain product m = a*b read only by the plain sum out = m + addend
+pub open spec fn fusable<F>(ops: Seq<Op<F>>, add_idx: int, mul_idx: int, muladd: Op<F>) -> bool {
+    &&& 0 <= add_idx < ops.len() && 0 <= mul_idx < ops.len() && add_idx != mul_idx
+    &&& addmul_parts(ops[mul_idx]).is_some() && addmul_parts(ops[mul_idx]).unwrap().0 is Mul
+    &&& addmul_parts(ops[add_idx]).is_some() && addmul_parts(ops[add_idx]).unwrap().0 is Add
+    &&& ({
+        let (_k, a, b, m) = addmul_parts(ops[mul_idx]).unwrap();
+        let (_k2, x, y, out) = addmul_parts(ops[add_idx]).unwrap();
+        let addend = if x == m { y } else { x };
+        &&& (x == m || y == m) && addend != m && out != m && a != m && b != m
+        &&& muladd matches Op::Alu { kind, a: a2, b: b2, c, out: o2, intermediate_out } && kind is MulAdd && a2 == a && b2 == b && c == Some(addend) && o2 == out && intermediate_out == Some(m)
+        // the product slot is mentioned by no other relation
+        &&& forall|k: int| 0 <= k < ops.len() && k != add_idx && k != mul_idx ==> !rel_mentions(#[trigger] ops[k], m)
+    })
+}
+
+pub proof fn lemma_uses_upto_zero_means_unread<F>(ops: Seq<Op<F>>, n: int, w: WitnessId, k: int)
+    requires 0 <= k < n <= ops.len(), uses_upto(ops, n, w) - op_uses(ops[k], w) == 0 || uses_upto(ops, n, w) == op_uses(ops[k], w)
+    ensures forall|j: int| 0 <= j < n && j != k ==> op_uses(#[trigger] ops[j], w) == 0
+    decreases n
+{
+    lemma_uses_nonneg_all(ops, n, w);
+    if n - 1 == k {
+        lemma_uses_zero(ops, n - 1, w);
+    } else {
+        lemma_op_uses_nonneg(ops[n - 1], w);
+        lemma_uses_ge(ops, n - 1, w, k);
+        assert(op_uses(ops[n - 1], w) == 0);
+        lemma_uses_upto_zero_means_unread(ops, n - 1, w, k);
+    }
+}
+pub proof fn lemma_occ_nonneg(s: Seq<WitnessId>, w: WitnessId) ensures occ(s, w) >= 0 decreases s.len() { if s.len() > 0 { lemma_occ_nonneg(s.drop_last(), w); } }
+pub proof fn lemma_occ2_nonneg(s: Seq<Vec<WitnessId>>, w: WitnessId) ensures occ2(s, w) >= 0 decreases s.len() { if s.len() > 0 { lemma_occ2_nonneg(s.drop_last(), w); lemma_occ_nonneg(s.last()@, w); } }
+pub proof fn lemma_op_uses_nonneg<F>(op: Op<F>, w: WitnessId) ensures op_uses(op, w) >= 0
+{ match op { Op::NonPrimitiveOpWithExecutor { inputs, .. } => { lemma_occ2_nonneg(inputs@, w); } _ => {} } }
+pub proof fn lemma_uses_nonneg_all<F>(ops: Seq<Op<F>>, n: int, w: WitnessId) ensures uses_upto(ops, n, w) >= 0 decreases n
+{ if n > 0 { lemma_uses_nonneg_all(ops, n - 1, w); lemma_op_uses_nonneg(ops[n - 1], w); } }
+/// total >= the contribution of any single op
+pub proof fn lemma_uses_ge<F>(ops: Seq<Op<F>>, n: int, w: WitnessId, k: int)
+    requires 0 <= k < n <= ops.len()
+    ensures uses_upto(ops, n, w) >= op_uses(ops[k], w)
+    decreases n
+{
+    lemma_op_uses_nonneg(ops[n - 1], w);
+    if k == n - 1 { lemma_uses_nonneg_all(ops, n - 1, w); } else { lemma_uses_ge(ops, n - 1, w, k); }
+}
+pub proof fn lemma_uses_zero<F>(ops: Seq<Op<F>>, n: int, w: WitnessId)
+    requires 0 <= n <= ops.len(), uses_upto(ops, n, w) == 0
+    ensures forall|j: int| 0 <= j < n ==> op_uses(#[trigger] ops[j], w) == 0
+    decreases n
+{
+    if n > 0 {
+        lemma_uses_nonneg_all(ops, n - 1, w); lemma_op_uses_nonneg(ops[n - 1], w);
+        lemma_uses_zero(ops, n - 1, w);
+    }
+}
+/// a slot that is an element of a nested list occurs at least once
+pub proof fn lemma_in_seq2_occ2(s: Seq<Vec<WitnessId>>, w: WitnessId)
+    requires in_seq2(s, w)
+    ensures occ2(s, w) >= 1
+    decreases s.len()
+{
+    let i = choose|i: int| 0 <= i < s.len() && (#[trigger] s[i])@.contains(w);
+    lemma_occ2_nonneg(s.drop_last(), w); lemma_occ_nonneg(s.last()@, w);
+    if i == s.len() - 1 { lemma_contains_occ(s.last()@, w); }
+    else { assert(s.drop_last()[i] == s[i]); assert(in_seq2(s.drop_last(), w)); lemma_in_seq2_occ2(s.drop_last(), w); }
+}
+pub proof fn lemma_contains_occ(s: Seq<WitnessId>, w: WitnessId)
+    requires s.contains(w)
+    ensures occ(s, w) >= 1
+    decreases s.len()
+{
+    let i = choose|i: int| 0 <= i < s.len() && s[i] == w;
+    lemma_occ_nonneg(s.drop_last(), w);
+    if i < s.len() - 1 { assert(s.drop_last()[i] == w); assert(s.drop_last().contains(w)); lemma_contains_occ(s.drop_last(), w); }
+}
+
+/// C03 core for fusion: what the analysis tables imply about the op list.
+/// (Before the fixes F4/F5 two hypotheses were needed here: constant second factor, HornerAcc accumulator.)
+pub proof fn lemma_candidate_is_fusable<F>(d: Defs<F>, ops: Seq<Op<F>>, add_idx: int, m: WitnessId, addend: WitnessId, out: WitnessId, muladd: Op<F>)
+    requires
+        dinv(d, ops, ops.len() as int),
+        0 <= add_idx < ops.len(),
+        ops[add_idx] matches Op::Alu { kind, a: x, b: y, c, out: o, .. } && kind is Add && c.is_none() && o == out && ((x == m && y == addend) || (y == m && x == addend)),
+        d.dom().contains(m), d[m].def is Mul, !cat(d, m),
+        uses_upto(ops, ops.len() as int, m) == 1,
+        muladd matches Op::Alu { kind, a: a2, b: b2, c, out: o2, intermediate_out } && kind is MulAdd && a2 == d[m].def->Mul_a && b2 == d[m].def->Mul_b && c == Some(addend) && o2 == out && intermediate_out == Some(m),
+    ensures
+        fusable(ops, add_idx, d[m].idx as int, muladd)
+{
+    let i = d[m].idx as int;
+    let n = ops.len() as int;
+    let (a, b) = (d[m].def->Mul_a, d[m].def->Mul_b);
+    assert(addmul_parts(ops[i]) == Some((AluOpKind::Mul, a, b, m)));
+    // the add reads m once => nothing else reads it, and the add's other operand is not m
+    lemma_uses_ge(ops, n, m, add_idx);
+    assert(op_uses(ops[add_idx], m) >= 1);
+    lemma_uses_upto_zero_means_unread(ops, n, m, add_idx);
+    assert(i != add_idx);
+    assert(op_uses(ops[i], m) == 0);
+    // no other definer of m: later ones would have replaced the recorded def, earlier ones are excluded by construction
+    assert forall|k: int| 0 <= k < n && k != i implies !definer(#[trigger] ops[k], m) by {
+        if definer(ops[k], m) {
+            assert(d[m].idx >= k);
+            assert(k < i);
+            assert(no_definer_before(ops, i, m));
+        }
+    }
+    assert forall|k: int| 0 <= k < n && k != add_idx && k != i implies !rel_mentions(#[trigger] ops[k], m) by {
+        assert(op_uses(ops[k], m) == 0);
+        assert(!definer(ops[k], m));
+        match ops[k] {
+            Op::NonPrimitiveOpWithExecutor { inputs, outputs, .. } => { if in_seq2(inputs@, m) { lemma_in_seq2_occ2(inputs@, m); } }
+            _ => {}
+        }
+    }
+    assert(!definer(ops[add_idx], m));
 }
 } // verus!
